@@ -11,6 +11,8 @@ CONSTANTS
  DevNoPattern = FALSE
  DevKeepRemoved = FALSE
  DevF13 = FALSE
+ DevVerKey = FALSE
+ DevDangEnd = FALSE
  DevDegree = FALSE
 INVARIANT Export
 CHECK_DEADLOCK FALSE
